@@ -609,7 +609,10 @@ def base_facts(ds, pf):
         rg_desc.append([cid, int(rg.num_rows), [int(v) for v in df["id"].tolist()]])
     with warnings.catch_warnings():
         warnings.simplefilter("ignore")
-        full = pf.to_pandas()
+        try:
+            full = pf.to_pandas()
+        except Exception as e:      # noqa: the full read itself fails - reported as a failing input by the caller
+            return {"full_error": "%s: %s\n%s" % (type(e).__name__, e, traceback.format_exc()[-1500:]), "rgs": rg_desc}
     counts = [int(rg.num_rows) for rg in rgs]
     parts, pos = [], 0
     for c in counts:
@@ -644,6 +647,9 @@ def classify(ds, base, prog, probs, res):
         comp = "empty-selection-partition-columns"
     elif any(k in F.NULLABLE_INT or k == "boolean" for k in ikinds) and "NAType" in msg:
         comp = "nullable-index"
+    elif (rd[0] == "iter" and rd[3] is not None and "NAType" in msg
+          and any(c["kind"] == "cat_int" and c["nulls"] != "none" and c["name"] not in rd[3] for c in ds["extra"])):
+        comp = "categories-arg-int-labels"
     return {"component": comp, "terminal": rd[0], "what": what, "scheme": ds["scheme"], "partitioned": bool(base["pcols"]),
             "open": ds["open"], "selected_row_groups": nsel, "nonempty_selected": nonempty, "index_names": len(inames),
             "index_kind": idx["kind"], "index_column_kinds": ikinds, "error": (res[1] if res[0] == "fail" else None), "nops": len(prog["ops"])}
@@ -661,6 +667,9 @@ def run_dataset(job):
         path = build_dataset(ds, tmp)
         pf = open_dataset(ds, path)
         base = base_facts(ds, pf)
+        if "full_error" in base:
+            out["full_error"] = base["full_error"]
+            return out
         out["base"] = {k: base[k] for k in ("rgs", "counts", "total", "full_len", "cols", "pcols", "index", "full_cols", "full_index", "full_ids")}
         if progs is None:
             rng = random.Random(pseed)
@@ -668,6 +677,9 @@ def run_dataset(job):
             progs += confirmation_programs(rng, ds, base) if extra_streams else []
         for prog in progs:
             res = run_program(pf, prog)
+            if prog.get("stream") == "confirm-multi-index" and res[0] == "ok":
+                # a frame whose multi-index was assembled by the real code is not safe to inspect (see the finding)
+                res = ("fail", "Other:Uninspected", "multi-index frame returned; not inspected", "")
             probs = oracle(base, prog, res)
             ra, sa, sp = model_args(base, prog)
             out["programs"].append({"prog": prog, "impl": canon_impl(res), "problems": [list(p) for p in probs[:4]],
@@ -687,10 +699,11 @@ def confirmation_programs(rng, ds, base):
     out = []
     # two names over REQUIRED numeric columns only: with an optional column as a level the real code stores raw values as
     # level codes and the frame cannot even be inspected safely (segfault seen) - recorded in the finding, not re-run here
-    if "id" in base["cols"] and "g" in base["cols"]:
+    distinct_nonempty = len(set(g[0] for g in base["rgs"] if g[1] > 0))
+    if "id" in base["cols"] and "g" in base["cols"] and distinct_nonempty >= 2:
         a, b = rng.choice([["id", "g"], ["g", "id"]])
         out.append({"ops": [], "rd": ["to_pandas", None, {"kind": "list", "names": [a, b]}], "stream": "confirm-multi-index"})
-        out.append({"ops": [["pick", 0]], "rd": ["to_pandas", ["u"], {"kind": "list", "names": [a, b]}], "stream": "confirm-multi-index"})
+        out.append({"ops": [], "rd": ["head", base["total"], ["u"], {"kind": "list", "names": [a, b]}], "stream": "confirm-multi-index"})
     if base["pcols"]:
         p = rng.choice(base["pcols"])
         out.append({"ops": [], "rd": ["to_pandas", None, {"kind": "str", "names": [p]}], "stream": "confirm-partition-index"})
